@@ -1056,6 +1056,58 @@ func (e *Exec) initGhosts(s *State) {
 	}
 }
 
+// verifyRely: the transitions of a monitor relate the state a thread last saw to the state it sees
+// after other threads ran (assumeRely). That is justified only if each transition is reflexive and
+// transitive; both are checked here over three arbitrary states of the whole heap.
+func (v *Verifier) verifyRely(m *Monitor) (rep *FuncReport) {
+	rep = &FuncReport{Key: shortPkg(m.PkgPath) + ".rely:" + m.TypeName + "." + m.MutexField, Mode: "int"}
+	defer func() {
+		if r := recover(); r != nil {
+			if u, ok := r.(unsupportedErr); ok {
+				rep.Unsupported = u.msg
+				return
+			}
+			rep.Unsupported = fmt.Sprintf("engine error: %v", r)
+		}
+	}()
+	e := newExec(v, nil, nil, ModeInt)
+	e.funcKey = rep.Key
+	e.props = m.Props
+	e.lemmaPkg = v.pkgByPath(m.PkgPath)
+	objT := v.lookupType(m.PkgPath, m.TypeName)
+	if objT == nil {
+		panic(unsupportedErr{"rely check: unknown monitor type " + m.TypeName})
+	}
+	mk := func() *State {
+		s := e.initialState()
+		epochCounter++
+		s.epoch = epochCounter
+		return s
+	}
+	a, b, c := mk(), mk(), mk()
+	// one allocation frontier: the three states talk about the same objects
+	b.allocBase, b.allocN = a.allocBase, a.allocN
+	c.allocBase, c.allocN = a.allocBase, a.allocN
+	e.entry = a
+	obj := e.freshValue(a, "mon_obj", types.NewPointer(objT)).(*Node)
+	a.assume(Not(Eq(obj, IntLit(0))))
+	vars := map[string]specVar{"s": {obj, types.NewPointer(objT)}, "self": {obj, types.NewPointer(objT)}}
+	cc := calleeCtx{v.pkgByPath(m.PkgPath)}
+	for i, tr := range m.Transitions {
+		refl := cc.evalWith(e, tr, a, a, vars)
+		e.obls = append(e.obls, &Obligation{Name: fmt.Sprintf("%s/transition#%d/reflexive", rep.Key, i+1), Kind: "rely", Goal: refl, Hyp: a.pc,
+			Func: rep.Key, Text: "reflexive: " + tr.Text, Props: m.Props, Mode: ModeInt, exec: e})
+		ab := e.asHyp(func() *Node { return cc.evalWith(e, tr, b, a, vars) })
+		bc := e.asHyp(func() *Node { return cc.evalWith(e, tr, c, b, vars) })
+		ac := cc.evalWith(e, tr, c, a, vars)
+		hyp := And(a.pc, b.pc, c.pc, ab, bc)
+		e.obls = append(e.obls, &Obligation{Name: fmt.Sprintf("%s/transition#%d/transitive", rep.Key, i+1), Kind: "rely", Goal: ac, Hyp: hyp,
+			Func: rep.Key, Text: "transitive: " + tr.Text, Props: m.Props, Mode: ModeInt, exec: e})
+	}
+	rep.Obls = e.obls
+	return
+}
+
 // verifyLemma: pure SMT obligation over predicates and pure functions.
 func (v *Verifier) verifyLemma(l *Lemma) (rep *FuncReport) {
 	rep = &FuncReport{Key: shortPkg(l.PkgPath) + ".lemma:" + l.Name}
